@@ -1,12 +1,12 @@
 package main
 
 import (
-	"os"
-	"go/ast"
 	"fmt"
+	"go/ast"
 	"go/constant"
 	"go/token"
 	"go/types"
+	"os"
 	"sort"
 	"strings"
 
@@ -27,9 +27,9 @@ type Obligation struct {
 	Hyp    Term // path condition
 	Goal   Term // must hold under Hyp
 	Script *Script
-	Inline bool  // generated inside an inlined callee
-	Agree  int   // thorough tier: number of solvers that answered unsat
-	Ante   *Term // antecedent of an implication-shaped goal (for the vacuity cover)
+	Inline bool          // generated inside an inlined callee
+	Agree  int           // thorough tier: number of solvers that answered unsat
+	Ante   *Term         // antecedent of an implication-shaped goal (for the vacuity cover)
 	Root   *ssa.Function // the function under verification (witness replay calls it)
 	// results
 	Status string // unsat (discharged) | sat | unknown | timeout
@@ -988,6 +988,9 @@ func (ex *Exec) siteAsserts(f *frame, st *State, b *ssa.BasicBlock, ins ssa.Inst
 			continue
 		}
 		sa.Hits++
+		if sa.alt == ins {
+			ex.note("assertion site \"" + sa.Site + "\" no longer matches the source text; re-attached to the only call of " + calleeName(ins) + " in " + funcName(f.fn))
+		}
 		env := ex.frameEnv(f, st, f.entry)
 		env.siteBlock = b
 		env.siteInstr = ins
@@ -1031,7 +1034,51 @@ func (V *Verifier) siteMatches(sa *SiteAssert, ins ssa.Instruction) bool {
 		name, cs, inCase := strings.Cut(name, "@")
 		return calleeName(ins) == name && (!inCase || V.enclosingCase(ins.Pos()) == cs)
 	}
-	return strings.HasPrefix(V.srcText(ins, ins.Pos()), sa.Site)
+	return strings.HasPrefix(V.srcText(ins, ins.Pos()), sa.Site) || (sa.alt != nil && sa.alt == ins)
+}
+
+// resolveSites: a site quoted by source text that matches nothing any more (a renamed local in the argument list, a
+// reformatted call) is re-attached to the call of the same function or method when the body has exactly one such call.
+func (V *Verifier) resolveSites(fn *ssa.Function, c *Contract) {
+	for _, sa := range c.Sites {
+		sa.alt = nil
+		if strings.HasPrefix(sa.Site, "call:") {
+			continue
+		}
+		name := siteCalleeName(sa.Site)
+		found := false
+		var cands []ssa.Instruction
+		for _, b := range fn.Blocks {
+			for _, ins := range b.Instrs {
+				if V.siteMatches(sa, ins) {
+					found = true
+				}
+				if name != "" && calleeName(ins) == name {
+					cands = append(cands, ins)
+				}
+			}
+		}
+		if !found && len(cands) == 1 {
+			sa.alt = cands[0]
+		}
+	}
+}
+
+// siteCalleeName: the function or method name of a site given as the source text of a call ("s.Store.Remove(ctx, ..." -> Remove).
+func siteCalleeName(site string) string {
+	i := strings.Index(site, "(")
+	if i <= 0 {
+		return ""
+	}
+	j := i
+	for j > 0 && (site[j-1] == '_' || site[j-1] >= '0' && site[j-1] <= '9' || site[j-1] >= 'a' && site[j-1] <= 'z' || site[j-1] >= 'A' && site[j-1] <= 'Z') {
+		j--
+	}
+	name := site[j:i]
+	if name == "" || name == "func" {
+		return ""
+	}
+	return name
 }
 
 // markComp: the state component of a mark (function-local: no call, loop cut or frame condition touches it except the
@@ -1063,6 +1110,9 @@ func calleeName(ins ssa.Instruction) string {
 	}
 	if fn := c.StaticCallee(); fn != nil {
 		return fn.Name()
+	}
+	if b, ok := c.Value.(*ssa.Builtin); ok {
+		return b.Name()
 	}
 	return ""
 }
